@@ -262,8 +262,13 @@ impl IdMap {
         if record.flags & I2E_FLAG_TOMBSTONED != 0 {
             return Ok(());
         }
-        record.flags |= I2E_FLAG_TOMBSTONED;
-        write_i2e_record(pager, start, internal_id as u64, *record)
+        // The flag counts as set only once it is written: after a failed write the next
+        // compaction has to try again instead of skipping the record.
+        let mut updated = *record;
+        updated.flags |= I2E_FLAG_TOMBSTONED;
+        write_i2e_record(pager, start, internal_id as u64, updated)?;
+        *record = updated;
+        Ok(())
     }
 
     pub fn apply_add_label(
